@@ -211,7 +211,7 @@ class _G:
                 start = len(prog)
                 blen = r.choice([1, 2, 3, 4, 5, 6, 8, 9])
                 if self.marathon and li == 0:
-                    prog[-1][3] = R.stream(self.seed, "marathon-n").choice([130, 260, 300, 520])
+                    prog[-1][3] = R.stream(self.seed, "marathon-n").choice([130, 260, 300, 520, 1100])
                     blen = min(blen, 4)
                 end = start + blen  # index of the counter decrement
                 for j in range(blen):
@@ -470,7 +470,7 @@ def generate(seed, faults=True, force_shape=None, fault_rate=0.25, long=False):
     prog = g.prog[: (120 if long else 40)]
     cfg = g.config()
     if long:
-        cfg["cap"] = 8000 if g.marathon else 2000
+        cfg["cap"] = 12000 if g.marathon else 2000
         # motifs are spliced more often into long programs (never into the independent family)
         for _ in range(g.r.randint(1, 4) if g.shape != "independent" else 0):
             which = g.r.choice(_G.MOTIFS)
